@@ -137,8 +137,8 @@ func mkTxs(rng *rand.Rand, st Step) [][]byte {
 }
 
 type result struct {
-	committed int
-	nonNominal int
+	committed   int
+	nonNominal  int
 	transitions map[string]bool
 }
 
